@@ -17,3 +17,9 @@ import Sidetree.Props.C06
 import Sidetree.Patch
 import Sidetree.Validator
 import Sidetree.Props.C13
+import Sidetree.JsonPatch
+import Sidetree.Composer
+import Sidetree.PatchBuild
+import Sidetree.Props.C10
+import Sidetree.Props.C11
+import Sidetree.Props.C14
